@@ -108,6 +108,21 @@ def jobs(seed=0):
         j = norm_job(rs, as_, (sp[0], sp[1]), 0, "thorough")
         j.timeout = 3000
         J.append(j)
+    J += rot_vec_jobs(seed)
+    NQ4 = [(1, 4)]
+    for n, (rs, as_) in enumerate(NQ4):
+        sp = stride_pick(seed, 2, n)
+        J.append(norm_job(rs, as_, (sp[0], sp[1]), 0, "quick"))
+    # concrete-k twins of the deepest dropped-limb shapes: when a change makes the limb schedule depend on k the
+    # symbolic-k run can exhaust the solver (undecided); with k fixed the schedule is concrete again
+    for (rs, as_, kk) in [(1, 4, 62), (1, 4, 33), (1, 3, 62), (2, 4, 62)] + [(r, a_, k_) for (r, a_) in NQ if r and a_ for k_ in (1, 62) if (r, a_, k_) != (1, 3, 62)]:
+        sp = stride_pick(seed, 2, kk)
+        J.append(norm_job(rs, as_, (sp[0], sp[1]), 0, "quick" if rs == 1 else "thorough", k=kk))
+    for n, (rs, as_) in enumerate([(2, 4), (4, 1)]):
+        sp = stride_pick(seed, 2, n)
+        j = norm_job(rs, as_, (sp[0], sp[1]), 0, "thorough")
+        j.timeout = 3000
+        J.append(j)
     names = set()
     out = []
     for j in J:
@@ -136,8 +151,26 @@ def norm_job(rs, as_, st, alias, tier, k=None, gq=0):
                enforce=[("vec_znx_normalize_base2k_ref", "vec_znx_normalize__c")],
                replace=[("znx_normalize", "znx_normalize__c_lean"), K_REF["zero"]], defines=d,
                cbmc_flags=["--unwind", str(max(rs, as_) + 2), "--unwinding-assertions", "--no-signed-overflow-check",
-                           "--no-undefined-shift-check"],
+                           "--no-undefined-shift-check", "--object-bits", "11"],
                functions=["vec_znx_normalize_base2k_ref"], solver="race", timeout=900, tier=tier,
                bound_note="limb counts (res,a)=(%d,%d), strides N*%d+%d/N*%d+%d, alias %d, k %s; unbounded in N and data"
                           % (rs, as_, rm, ra, am, aa, alias, "symbolic 1..62" if k is None else str(k)),
                replay={"driver": "vec_norm"})
+
+
+def rot_vec_jobs(seed=0):
+    J = []
+    R = [("znx_rotate_i64", "znx_rotate__c"), ("znx_rotate_inplace_i64", "znx_rotate_inplace__c"), K_REF["zero"]]
+    A = [("znx_automorphism_i64", "znx_automorphism__c"), ("znx_automorphism_inplace_i64", "znx_automorphism_inplace__c"), K_REF["zero"]]
+    for fn, contract, repl in (("vec_znx_rotate_ref", "vec_znx_rotate__c", R), ("vec_znx_automorphism_ref", "vec_znx_automorphism__c", A)):
+        for n, sh in enumerate(QUICK2):
+            for alias, tier in ((0, "quick"), (1, "quick")):
+                if alias == 1 and (sh[0] == 0 or sh[1] == 0):
+                    continue
+                j = mk(fn, "arithmetic/vec_znx.c", contract, repl, (sh[0], sh[1], None), stride_pick(seed, 2, n + alias), alias, tier,
+                       ["C09", "C08", "C13", "C11", "C18", "C15"])
+                j.harness = "vec_rot.c"
+                j.cbmc_flags = j.cbmc_flags + ["--no-signed-overflow-check"]
+                j.bound_note += "; in-place kernel contract assumed (bounded S4 evidence)"
+                J.append(j)
+    return J
